@@ -261,7 +261,7 @@ def check(prop, tier):
     runs = (MC_C11 if prop == "C11" else MC_C12)[tier]
     mc, per = run_mc(wd, runs)
     log("[mc] GossipNet %s" % mc)
-    num = 120 if tier == "quick" else 700
+    num = 120 if tier == "quick" else 400
     behaviours = []
     sd = rng.randint(1, 10 ** 6)
     for run in runs:
